@@ -269,3 +269,157 @@ def fault(name, kind, k, j=0):
     if kind == "junk":
         return data + JUNK[j].encode()
     raise ValueError(kind)
+
+
+# ------------------------------------------------------------------------------------------------------------ writing side
+# code points standing for the classes that XML 1.0 text handling distinguishes (Char production, line ends, markup, attribute
+# normalisation, supplementary planes), plus ']' for "]]>"
+CPS = [0x09, 0x0A, 0x0D, 0x20, 0x22, 0x26, 0x27, 0x3C, 0x3E, 0x5D, 0x61, 0x85, 0xA0, 0xE9, 0x2028, 0xD7FF, 0xE000, 0xFFFD, 0x1F600, 0x10FFFF,
+       0x00, 0x08, 0x0B, 0x1F, 0x7F, 0xD800, 0xDFFF, 0xFFFE, 0xFFFF]
+PLACES = ["element", "attribute", "ns_attribute", "text", "token", "wild_text", "wild_tail", "wild_attr", "mixed_text", "anytype"]
+
+
+def xml_char(cp):
+    return cp in (0x9, 0xA, 0xD) or 0x20 <= cp <= 0xD7FF or 0xE000 <= cp <= 0xFFFD or 0x10000 <= cp <= 0x10FFFF
+
+
+def place_object(place, s):
+    """(class, instance, getter) with the string s at the given place; None where the place cannot hold s."""
+    from harness import models as m
+    from xsdata.formats.dataclass.models.generics import AnyElement
+
+    if place == "element":
+        return m.Basic, m.Basic(i=1, s=s), lambda o: o.s
+    if place == "attribute":
+        return m.TextAttr, m.TextAttr(value=1, a=s), lambda o: o.a
+    if place == "ns_attribute":
+        return m.TextAttr, m.TextAttr(value=1, q=s), lambda o: o.q
+    if place == "text":
+        return m.TextStr, m.TextStr(value=s), lambda o: o.value
+    if place == "token":
+        if any(ch.isspace() for ch in s) or s == "":
+            return None  # a token cannot contain white space
+        return m.Lists, m.Lists(ints=[1], atoks=["p", s]), lambda o: o.atoks[-1] if o.atoks else None
+    if place == "wild_text":
+        return m.Wild, m.Wild(known=1, any=AnyElement(qname="{urn:c}f", text=s)), lambda o: o.any.text
+    if place == "wild_tail":
+        return m.Mixed, m.Mixed(content=["t", AnyElement(qname="b", text="u", tail=s)]), lambda o: o.content[-1].tail
+    if place == "wild_attr":
+        return m.Wild, m.Wild(known=1, any=AnyElement(qname="{urn:c}f", text="t", attributes={"k": s})), lambda o: o.any.attributes.get("k")
+    if place == "mixed_text":
+        return m.Mixed, m.Mixed(content=[s, AnyElement(qname="b", text="u")]), lambda o: o.content[0]
+    if place == "anytype":
+        return m.AnyTyped, m.AnyTyped(v=s), lambda o: o.v
+    raise ValueError(place)
+
+
+def writers():
+    from xsdata.formats.dataclass.serializers.writers import LxmlEventWriter, XmlEventWriter
+
+    return {"lxml": LxmlEventWriter, "native": XmlEventWriter}
+
+
+def render(obj, writer):
+    from xsdata.formats.dataclass.context import XmlContext
+    from xsdata.formats.dataclass.serializers import XmlSerializer
+
+    return XmlSerializer(context=XmlContext(), writer=writers()[writer]).render(obj)
+
+
+def _read_place(place, data):
+    """The string at `place` as read by ElementTree alone (independent of xsdata's parser)."""
+    import xml.etree.ElementTree as ET
+
+    root = ET.fromstring(data)
+    if place == "element":
+        return root.find("{urn:a}s").text
+    if place == "attribute":
+        return root.get("a")
+    if place == "ns_attribute":
+        return root.get("{urn:b}q")
+    if place in ("text", "mixed_text"):
+        return root.text
+    if place == "token":
+        return root.get("atoks").split(" ")[-1]
+    if place == "wild_text":
+        return root.find("{urn:c}f").text
+    if place == "wild_tail":
+        return root.find("b").tail
+    if place == "wild_attr":
+        return root.find("{urn:c}f").get("k")
+    if place == "anytype":
+        return root.find("v").text
+    raise ValueError(place)
+
+
+def _ws_only(s):
+    return s.strip() == "" or all(ch in " \t\r\n" for ch in s)
+
+
+def write_check(prop, place, c0, c1, known_nonxml=False):
+    """One string (one or two code points of CPS; c1 == len(CPS) means a single one) at one place through the real writers and
+    parsers.  prop selects the oracle: C01 round trip | C03 well-formed + independent reading | C08 writers agree."""
+    s = chr(CPS[c0]) + (chr(CPS[c1]) if c1 < len(CPS) else "")
+    po = place_object(place, s)
+    if po is None:
+        return {"ok": True, "skipped": "the place cannot hold this string"}
+    cls, obj, get = po
+    rep = all(xml_char(ord(ch)) for ch in s)
+    if place in ("mixed_text", "wild_tail") and _ws_only(s):
+        return {"ok": True, "skipped": "white-space-only text next to a child element (excepted by C11; Unicode-space-only text is the listed finding C01-unicode-space)"}
+    out = {"ok": True, "string": repr(s), "place": place, "representable_in_xml_1_0": rep}
+    docs = {}
+    for w in ("native", "lxml"):
+        try:
+            docs[w] = ("ok", render(obj, w).encode())
+        except Exception as e:  # noqa: BLE001
+            docs[w] = ("raised", type(e).__name__)
+        out[w + "_writer"] = repr(docs[w])[:300]
+    if prop == "C03":
+        for w in ("native", "lxml"):
+            if docs[w][0] == "raised":
+                if rep:
+                    out["ok"] = False
+                    out["problem"] = f"{w} writer refuses a representable string"
+                continue
+            if not rep and w == "native" and known_nonxml:
+                continue  # exactly the signature of the listed known finding
+            if not well_formed(docs[w][1]):
+                out["ok"] = False
+                out["problem"] = f"{w} writer output is not well-formed"
+            elif rep and _read_place(place, docs[w][1]) != s:
+                out["ok"] = False
+                out["problem"] = f"{w} writer: ElementTree reads {_read_place(place, docs[w][1])!r} at the place"
+        return out
+    if not rep:
+        return {"ok": True, "skipped": "not representable in XML 1.0 (C03's subject)"}
+    if prop == "C01":
+        for w in ("native", "lxml"):
+            if docs[w][0] != "ok":
+                out["ok"] = False
+                out["problem"] = f"{w} writer raised for a representable string"
+                continue
+            for h in ("lxml", "native"):
+                try:
+                    back = parse(docs[w][1], cls, h)[1]
+                except Exception as e:  # noqa: BLE001
+                    back = "raised " + type(e).__name__
+                if back != obj:
+                    out["ok"] = False
+                    out["problem"] = f"{w} writer -> {h} handler: {repr(get(back) if not isinstance(back, str) else back)[:120]} instead of {s!r}"
+        return out
+    if prop == "C08":
+        res = {}
+        for w in ("native", "lxml"):
+            if docs[w][0] != "ok":
+                res[w] = docs[w]
+                continue
+            try:
+                res[w] = ("ok", parse(docs[w][1], cls, "native")[1])
+            except Exception as e:  # noqa: BLE001
+                res[w] = ("parse raised", type(e).__name__)
+        if res["native"] != res["lxml"]:
+            out["ok"] = False
+            out["problem"] = "the two writers' documents do not carry the same infoset: %s vs %s" % (repr(res["native"])[:200], repr(res["lxml"])[:200])
+        return out
+    raise ValueError(prop)
